@@ -159,14 +159,24 @@ func c06Monitor(tbl []c06Entry, host string, qt uint16, o c06Obs, viaCheckHost b
 	// type pass (AGHTechDoc "pass A only": the other family is answered
 	// empty), so beside one of them (of EITHER family) no wildcard value may
 	// be answered for the name.
-	excExactAny := ""
+	// Likewise among wildcards: a wildcard "A"/"AAAA" entry is an entry for
+	// the names it covers, and a less specific wildcard's value is not used
+	// beside it.
+	excExactAny, excWild, excWildLen := "", "", 0
 	for _, e := range tbl {
-		if d := strings.ToLower(e.dom); (e.ans == "A" || e.ans == "AAAA") && d == final && !c06IsWild(d) {
+		d := strings.ToLower(e.dom)
+		if e.ans != "A" && e.ans != "AAAA" || !c06Matches(e.dom, final) {
+			continue
+		}
+		switch {
+		case !c06IsWild(d):
 			excExactAny = e.dom + " -> " + e.ans
+		case len(d) > excWildLen:
+			excWild, excWildLen = e.dom+" -> "+e.ans, len(d)
 		}
 	}
 	for _, a := range o.ips {
-		found, precise, exact := false, false, false
+		found, precise, exact, srcLen := false, false, false, 0
 		for _, e := range cand {
 			if ip, _ := netip.ParseAddr(e.ans); ip == a {
 				found = true
@@ -176,6 +186,7 @@ func c06Monitor(tbl []c06Entry, host string, qt uint16, o c06Obs, viaCheckHost b
 				if strings.ToLower(e.dom) == final {
 					exact = true
 				}
+				srcLen = max(srcLen, len(e.dom))
 			}
 		}
 		if !found {
@@ -186,6 +197,9 @@ func c06Monitor(tbl []c06Entry, host string, qt uint16, o c06Obs, viaCheckHost b
 		}
 		if excExactAny != "" && !exact {
 			return false, "precedence", fmt.Sprintf("address %s for %q comes from a wildcard entry although the exact entry %s exists (an exact entry shadows wildcard entries; an \"A\"/\"AAAA\" entry lets only that type pass)", a, final, excExactAny)
+		}
+		if !exact && excWildLen > srcLen {
+			return false, "precedence", fmt.Sprintf("address %s for %q comes from a wildcard less specific than the entry %s (the most specific wildcard wins)", a, final, excWild)
 		}
 	}
 	if o.reason == 1 && len(o.ips) > 0 {
